@@ -45,6 +45,7 @@ import (
 	forwardercomp "github.com/noble-assets/orbiter/v2/keeper/component/forwarder"
 	forwardertypes "github.com/noble-assets/orbiter/v2/types/component/forwarder"
 	orbtypes "github.com/noble-assets/orbiter/v2/types"
+	actiontypes "github.com/noble-assets/orbiter/v2/types/controller/action"
 	forwardingtypes "github.com/noble-assets/orbiter/v2/types/controller/forwarding"
 	"github.com/noble-assets/orbiter/v2/types/core"
 )
@@ -417,4 +418,58 @@ func (h *hwire) msgLine(d *driver, s *appState, f []string) (out string) {
 		req = strings.Join(h.reqs, ";")
 	}
 	return fmt.Sprintf("res=%s hreq=%s st=%s", res, req, s.stateStr(s.env.Ctx))
+}
+
+// acth <amount> <denomHex> <actionId> <k> (<recipientHex> <b|a|n> <valueHex>)*: one action packet straight into the
+// executor of the harness-wired keeper (component level, non-committing). The orbiter account is funded with exactly
+// the amount first, as it is after the ICS-20 credit on the receive path.
+func (h *hwire) actLine(d *driver, s *appState, f []string) (out string) {
+	defer func() {
+		if r := recover(); r != nil {
+			out = "res=panic dst=- bal=-"
+		}
+	}()
+	amt, ok := sdkmath.NewIntFromString(f[0])
+	if !ok {
+		return "bad-op"
+	}
+	denom := mustUnhx(f[1])
+	aid, err := strconv.ParseInt(f[2], 10, 32)
+	if err != nil {
+		return "bad-op"
+	}
+	infos, _, ok := buildFeeInfos(f[3:])
+	if !ok {
+		return "bad-op"
+	}
+	h.resetOp()
+	h.faults = map[string]map[int]bool{}
+	cacheCtx, _ := s.env.Ctx.CacheContext()
+	cacheCtx = cacheCtx.WithEventManager(sdk.NewEventManager())
+	if amt.IsPositive() && sdk.ValidateDenom(denom) == nil {
+		coins := sdk.NewCoins(sdk.NewCoin(denom, amt))
+		if err := s.env.App.BankKeeper.MintCoins(cacheCtx, "transfer", coins); err != nil {
+			return "bad-op"
+		}
+		if err := s.env.App.BankKeeper.SendCoinsFromModuleToAccount(cacheCtx, "transfer", core.ModuleAddress, coins); err != nil {
+			return "bad-op"
+		}
+	}
+	before := s.snap(cacheCtx)
+	ta, err := core.NewTransferAttributes(core.PROTOCOL_IBC, "channel-0", denom, amt)
+	if err != nil {
+		return "res=err:attrs dst=- bal=-"
+	}
+	action := &core.Action{Id: core.ActionID(aid)}
+	if err := action.SetAttributes(&actiontypes.FeeAttributes{FeesInfo: infos}); err != nil {
+		return "bad-op"
+	}
+	pkt := &orbtypes.ActionPacket{TransferAttributes: ta, Action: action}
+	herr := h.k.Executor().HandlePacket(cacheCtx, pkt)
+	after := s.snap(cacheCtx)
+	res := "ok"
+	if herr != nil {
+		res = "err"
+	}
+	return fmt.Sprintf("res=%s dst=%s:%s bal=%s", res, hx(ta.DestinationDenom()), ta.DestinationAmount().String(), deltaStr(before.bal, after.bal))
 }
